@@ -126,6 +126,66 @@ CLAIMS = {
         design_ref="5/C07",
         note=TRUST + "; GLR engine sampled; scope = grammars whose LALR_PAGER items pass Table.rawDeterministic",
         technique="Lean 4 proof (uniqueness of the LR tree) + differential comparison of the real LR and GLR parsers"),
+    "C09": dict(
+        category="proof",
+        text=("Lean model Front.build of grammar/builder.rs over the File AST (all of try_from_file: terminals, productions, sugar "
+              "desugaring, inline-string and name resolution, meta-data inheritance, reachability), panic sites explicit. Theorems "
+              "(Props/C09.lean, 38): for every AST outside the decidable classes {helper name equal to a rule or terminal name, two "
+              "sugar uses differing only in separator, rule named EMPTY/AUG/AUGL} every alternative is exactly one production of its "
+              "rule's nonterminal, in order, symbols in order, unnamed EMPTY removed, assignment names and flags kept, sugar denoted by "
+              "its helper (C09_alternatives_are_productions, C09_empty_contributes_nothing); names and inline strings resolve to the "
+              "declared symbols (C09_inline_strings_resolve, C09_all_symbols_resolved); the first rule is the start symbol and AUG -> "
+              "start (C09_first_rule_is_start); per-key meta-data inheritance incl. associativity (C09_meta_inheritance, "
+              "C09_assoc_inheritance_fixed); each ? * + [sep] helper derives exactly the documented language (C09_sugar_language_*) and "
+              "helpers are shared iff the uses are identical (C09_helpers_shared); all indices consistent (C09_indices_consistent). "
+              "Counterexample theorems for the recorded findings (F5, F5b, N3) and for the repaired ones on the pre-repair variant. "
+              "Tie A: grammar records, error kind and panic site of the real parser+builder (hook dump_grammar_only) vs the model on "
+              "rendered specs; oracle independent of the model: documented structure + language up to length 4-5 incl. real LR parses."),
+        design_ref="0/C09, notes/C09.md",
+        note=TRUST + "; text -> AST (the bootstrapped rustemo parser) is covered by the correspondence only; imports not modelled",
+        technique="Lean 4 proof over executable model of the grammar front end + differential correspondence + documented-structure/language oracle"),
+    "C10": dict(
+        category="proof",
+        text=("C10_holds : C10_statement Fixes.repo - for every grammar shape table of the default builder, every well-shaped parse "
+              "tree (LR or GLR replay incl. right-nulled nodes, loc_info on/off) and the value the generated DefaultBuilder stack "
+              "machine returns (C10_stack_machine_is_eval: run = eval), the string leaves of the value are exactly the content-token "
+              "texts in input order (C10_tokens_in_order, C10_builder_returns_tokens_repo), vectors are in input order "
+              "(C10_vec_in_order), optional parts are None iff the EMPTY alternative (C10_optional_none_iff_absent); false of the "
+              "pre-repair variant (F7, C10_counterexample_right_vec; repaired by a fix: commit). Tie A: value correspondence between "
+              "compiled generated parsers (real Settings chain, rustc, run on inputs) and the Lean evaluator; independent event oracle."),
+        design_ref="0/C10, notes/C10.md",
+        note=TRUST + "; well-shapedness of the tree is a hypothesis (C02/C03 own it); symbolTypes <-> real generator by correspondence",
+        technique="Lean 4 proof over executable model of type inference + generated builder + differential correspondence on compiled parsers"),
+    "C11": dict(
+        category="proof",
+        text=("PARTIAL. Proved: the model of the find_recursions DFS marks an edge on every reference cycle reachable from the start "
+              "symbol (C11_box_breaks_cycles); the sizedness certificate is sound (C11_sized_sound) and run on the skeleton of every "
+              "cell; arms of non-right-nulled productions are well typed under name resolution (C11_arms_typed_partial); each repaired "
+              "finding (F22, F23, rule C, Option<Box<_>>) is well formed in the repo variant and was not before "
+              "(C11_fixed_* / C11_counterexample_*). C11_statement Fixes.repo is proved FALSE (C11_counterexample_statement): F12 "
+              "(non-Option right-nulled tails, GLR default builder) and F13 (generated name collisions) are recorded known findings. "
+              "Tie: the skeleton model equals the real generated items and arm calls textually on every cell; Skel.wellFormed agrees "
+              "with rustc on all cells; rustc acceptance itself is differential over {LR,GLR} x {Default,Generic,Custom} x "
+              "{Arrays,Functions} x loc_info x fancy_regex x {default, custom lexer}."),
+        design_ref="0/C11, notes/C11.md",
+        note=TRUST + "; rustc's verdict is an oracle, not modelled; harness/astgen + tools/genbatch.py templates are trusted glue",
+        technique="Lean 4 proof (cycle breaking, sizedness certificate) + textual skeleton correspondence + rustc as oracle on generated code"),
+    "C16": dict(
+        category="proof",
+        text=("PARTIAL. Two stages of the compiler pipeline are modelled in Lean with every unwrap/expect/assert!/todo!/index as an "
+              "explicit panic outcome and proved total for the code as it is: the grammar builder (C16_front_end_total: Front.build "
+              "of any File AST returns a grammar or a diagnostic unless an integer literal does not fit u32 or a rule is its own "
+              "repetition helper - the two recorded known findings, with proved witnesses C16_front_end_open_panics; "
+              "C16_builder_output_safe: no production references STOP and every production kind is a Rust identifier) and conflict "
+              "resolution of a cell (C16_resolution_total). Not modelled: the parser of the grammar language (an instance of C15), "
+              "item-set construction, code generators - decided by the differential run only: the real Settings::process_grammar "
+              "under catch_unwind + watchdog on every .rustemo file of the repository, hand-written broken/odd texts and token- and "
+              "byte-level mutations x {LR,GLR} x table types x prefer-shift settings x builders x layouts. Tie A for the builder is "
+              "C09's correspondence (error kind and panic site); Tie C: inventory of all panic-capable sites of the compiler crate "
+              "(inventory/c16.json). Seven panics found were repaired by fix: commits; three classes are recorded known findings."),
+        design_ref="0/C16",
+        note=TRUST + "; totality of the table construction and of the generators is not a theorem",
+        technique="Lean 4 totality proofs for the modelled stages (builder, conflict resolution) + panic-site inventory + differential run under catch_unwind"),
     "C08": dict(
         category="proof",
         text=("Theorems C08_arrays_faithful, C08_functions_faithful, C08_no_error_in_cells, C08_layouts_agree, C08_layouts_agree_run (LR "
